@@ -106,7 +106,7 @@ class P(Prop):
     def compare(self, case, hres, mres):
         # one model run stands for all three entry points (Piecewise::integral, integral_iter, integral_iter_ref)
         if case["op"] == "pw_integral_all" and isinstance(hres.get("r"), list) and mres is not None:
-            mres = list(mres) * 3
+            mres = list(mres) * 6
         return Prop.compare(self, case, hres, mres)
 
     def oracle(self, case, h):
@@ -125,6 +125,15 @@ class P(Prop):
                 return "Piecewise::integral and Segment::integral_iter (by value) produce different pieces"
             if [list(map(C.canon, p)) for p in p2] != [list(map(C.canon, p)) for p in p3]:
                 return "Segment::integral_iter and integral_iter_ref produce different pieces"
+            rest = r[used + u2:]
+            p3b, u3 = split_segs(rest, n)
+            rest = rest[u3:]
+            for what in ("integral_iter over a filtered (unsized) iterator", "integral_iter over a from_fn generator",
+                         "integral_iter_ref over a filtered (unsized) iterator"):
+                px, ux = split_segs(rest, n)
+                rest = rest[ux:]
+                if [list(map(C.canon, p)) for p in px] != [list(map(C.canon, p)) for p in pieces]:
+                    return "%s produces different pieces than Piecewise::integral" % what
         if len(pieces) != len(segs):
             return "result has %d pieces for %d input pieces" % (len(pieces), len(segs))
         for i, (a, b) in enumerate(zip(segs, pieces)):
